@@ -473,8 +473,37 @@ def templates():
 PI_REGS = ["RAX", "RBX", "RCX", "RDX", "RSI", "RDI"]
 
 
+def heap_loop_project(rng):
+    """Directed shape: the same malloc call site is executed twice, the first object is remembered in a stack slot, both
+    objects get different values at the same offset, then the first object is read again (objects allocated in a loop share
+    one abstract identifier, so writes to them must be weak updates)."""
+    ids = Ids()
+    off = rng.choice([0, 8, 8, 16])
+    slot = rng.choice([16, 24, 32])
+    k1, k2 = rng.sample([0, 1, 3, 7, 0x10, 0xFF, 0x5000], 2)
+    cell = lambda base: V(base) if off == 0 else B("IntAdd", V(base), C(off))  # noqa: E731
+    sl = B("IntAdd", V("RSP"), C(slot))
+    push = [assign(ids, var("RSP"), B("IntSub", V("RSP"), C(8))), store(ids, V("RSP"), C(0x401000))] if rng.random() < 0.8 else []
+    b0 = blk("blk_0", [assign(ids, var("RSP"), B("IntSub", V("RSP"), C(0x40))), assign(ids, var("RBP"), C(0))], [jmp(ids, "branch", target="blk_1")])
+    b1 = blk("blk_1", push + [], [jmp(ids, "call", target="ext_malloc", ret="blk_2")])
+    b2 = blk("blk_2", [assign(ids, var("RBX"), V("RAX"))], [jmp(ids, "cbranch", target="blk_4", cond=B("IntNotEqual", V("RBP"), C(0))), jmp(ids, "branch", target="blk_3")])
+    b3 = blk("blk_3", [store(ids, cell("RBX"), C(k1)), store(ids, sl, V("RBX")), assign(ids, var("RBP"), C(1))], [jmp(ids, "branch", target="blk_1")])
+    first = rng.choice(["RCX", "RSI", "RDI"])
+    b4defs = [store(ids, cell("RBX"), C(k2)), load(ids, var(first), sl), load(ids, var("RDX"), cell(first))]
+    if rng.random() < 0.5:
+        b4defs = [load(ids, var(first), sl), store(ids, cell("RBX"), C(k2)), load(ids, var("RDX"), cell(first))]
+    b4 = blk("blk_4", b4defs, [jmp(ids, "branch", target="blk_5")])
+    b5 = blk("blk_5", [assign(ids, var("RSP"), B("IntAdd", V("RSP"), C(0x40)))], [jmp(ids, "return", target=V("RDX"))])
+    p = project([b0, b1, b2, b3, b4, b5], [])
+    p["externs"] = [e for e in p["externs"] if e["name"] == "malloc"]
+    p["ptr_regs"] = []
+    return p
+
+
 def random_pi_project(rng):
     """Single function: register arithmetic, comparisons, stack loads/stores at constant offsets, branches, loops."""
+    if rng.random() < 0.01:
+        return heap_loop_project(rng)  # (values read back from re-allocated objects carry the top flag: exercises the weak-update paths, rarely constrains)
     ids = Ids()
     n = rng.randrange(2, 7)
     tids = ["blk_%d" % i for i in range(n)]
@@ -484,12 +513,14 @@ def random_pi_project(rng):
     # (checked under the analysis' assumption that parameter objects alias neither each other nor the stack frame)
     ptr_regs = rng.choice([[], [], ["RDI"], ["RDI", "RSI"], ["RSI"]])
     with_calls = rng.random() < 0.35
+    # heap mode: blk_0 ends with a malloc call, blk_1 (entered only from there) saves the pointer in the callee-saved RBX,
+    # which is never written otherwise; all later blocks may access the object through RBX at small constant offsets
+    heap_mode = with_calls and n >= 3 and rng.random() < 0.55
     if with_calls:
         # a call clobbers the parameter registers; a store through such a register afterwards is a store through an unknown
         # pointer, which the analysis (by design) assumes not to alias tracked memory
         ptr_regs = []
-        dst_regs = list(PI_REGS)
-    dst_regs = [r for r in PI_REGS if r not in ptr_regs]
+    dst_regs = [r for r in PI_REGS if r not in ptr_regs and not (heap_mode and r == "RBX")]
     small = lambda: C(rng.choice([0, 1, 2, 3, 4, 5, 7, 8, 10, 16, 100, 0xFF, 0x300, 0x500, 0x5000, 0xFFFFFFFFFFFFFFFF, 0xFFFFFFFFFFFFFFF8, 0x7FFFFFFFFFFFFFFF, 0x8000000000000000, rng.randrange(0, 64)]))  # noqa: E731
 
     def stack_addr():
@@ -503,6 +534,22 @@ def random_pi_project(rng):
         off = rng.choice([0, 8, 8, 16, 4, -8, 0x18])
         p = V(rng.choice(ptr_regs))
         return p if off == 0 else B("IntAdd" if off > 0 else "IntSub", p, C(abs(off)))
+
+    def heap_addr():
+        off = rng.choice([0, 8, 8, 16, 24, 4])
+        return V("RBX") if off == 0 else B("IntAdd", V("RBX"), C(off))
+
+    def heap_def():
+        q = rng.random()
+        dst = var(rng.choice(dst_regs))
+        if q < 0.45:
+            return load(ids, dst, heap_addr())
+        if q < 0.8:
+            return store(ids, heap_addr(), rng.choice([V(rng.choice(PI_REGS)), small(), stack_addr(), heap_addr()]))
+        if q < 0.9:
+            size = rng.choice([4, 2, 1])
+            return store(ids, heap_addr(), rng.choice([SUBP(0, size, V(rng.choice(PI_REGS))), C(0x33333333 & ((1 << (8 * size)) - 1), size)]))
+        return assign(ids, dst, heap_addr())
 
     def rand_def():
         r = rng.random()
@@ -585,7 +632,7 @@ def random_pi_project(rng):
         return [store(ids, a, wide), store(ids, inner, narrow), load(ids, var(rng.choice(dst_regs)), a)]
 
     blocks = []
-    join_fragment = rng.random() < 0.2 and n >= 4
+    join_fragment = rng.random() < 0.2 and n >= 4 and not heap_mode
     for i, t in enumerate(tids):
         defs = []
         if i == 0:
@@ -596,7 +643,9 @@ def random_pi_project(rng):
             # typical loop counter initialisation
             if rng.random() < 0.7:
                 defs.append(assign(ids, var(rng.choice(dst_regs)), C(rng.choice([0, 1, 10]))))
-        defs += [rand_def() for _ in range(rng.randrange(0, 5))]
+        if heap_mode and i == 1:
+            defs.append(assign(ids, var("RBX"), V("RAX")))
+        defs += [(heap_def() if (heap_mode and i >= 1 and rng.random() < 0.35) else rand_def()) for _ in range(rng.randrange(0, 5))]
         if rng.random() < 0.12:
             defs += cell_fragment()
         if join_fragment and i in (1, 2):
@@ -615,7 +664,14 @@ def random_pi_project(rng):
             r = rng.random()
             fwd = rng.choice(tids[i + 1:])
             anyt = rng.choice(tids[max(0, i - 2):]) if rng.random() < 0.45 else fwd
-            if join_fragment and i == 0:
+            if heap_mode and anyt == "blk_1":
+                anyt = "blk_0"  # blk_1 is entered from the malloc call only
+            if heap_mode and i == 0:
+                if rng.random() < 0.8:
+                    defs.append(assign(ids, var("RSP"), B("IntSub", V("RSP"), C(8))))
+                    defs.append(store(ids, V("RSP"), C(0x401000)))
+                jm = [jmp(ids, "call", target="ext_malloc", ret="blk_1")]
+            elif join_fragment and i == 0:
                 jm = [jmp(ids, "cbranch", target="blk_1", cond=cmp_expr()), jmp(ids, "branch", target="blk_2")]
             elif join_fragment and i in (1, 2):
                 jm = [jmp(ids, "branch", target="blk_3")]
